@@ -253,9 +253,10 @@ def case_nonpow2(rng: Any, ctx: Ctx, index: int) -> None:
 
 
 def run(ctx: Ctx) -> None:
-    drive(ctx, case_pixel, 1200, 12000, stream=0, part='pixel')
-    drive(ctx, case_bijection, 155, 155, stream=1, part='pixel')
+    # small fixed-count parts first: they must never be starved by the time cap of the big streams
     drive(ctx, case_wide, 6, 30, stream=2, part='pixel')
-    drive(ctx, case_healpix, 140, 1400, stream=3, part='healpix')
-    drive(ctx, case_coverage, 200, 2000, stream=4, part='healpix')
+    drive(ctx, case_bijection, 155, 155, stream=1, part='pixel')
+    drive(ctx, case_pixel, 1200, 12000, stream=0, part='pixel')
     drive(ctx, case_nonpow2, 10, 30, stream=5, part='healpix')
+    drive(ctx, case_coverage, 200, 2000, stream=4, part='healpix')
+    drive(ctx, case_healpix, 140, 1400, stream=3, part='healpix')
